@@ -56,7 +56,10 @@ inline std::string write_plan_file(const std::string& dir, const Plan& p, u64 ve
 // handles one violation found in-process: determinism gate, shrink, write plan. Returns the JSON line.
 inline std::string handle_violation(World* w, const Plan& plan, const Outcome& first, bool crashed, u64 verif_seed, u64 run_index, const std::string& outdir) {
   Outcome again = crashed ? run_forked(w, plan) : run_inproc(w, plan);
-  if (!again.violation || again.fingerprint != first.fingerprint || (!crashed && again.trace != first.trace)) {
+  // the gate is the fingerprint: a violation that comes back with the same fingerprint while the trace differs is the library itself behaving differently
+  // from one execution to the next (e.g. hashing an address) - reported, with the fact noted; the fresh-process replay still has to reproduce it
+  const bool trace_stable = crashed || again.trace == first.trace;
+  if (!again.violation || again.fingerprint != first.fingerprint) {
     return std::string("{\"type\":\"nondeterminism\",\"world\":") + jstr(w->name()) + ",\"run\":" + std::to_string(run_index) +
       ",\"first\":" + jstr(first.fingerprint + " :: " + first.detail) + ",\"second\":" + jstr(again.violation ? again.fingerprint + " :: " + again.detail : "no violation") + "}";
   }
@@ -66,7 +69,7 @@ inline std::string handle_violation(World* w, const Plan& plan, const Outcome& f
   return std::string("{\"type\":\"violation\",\"world\":") + jstr(w->name()) + ",\"run\":" + std::to_string(run_index) +
     ",\"fingerprint\":" + jstr(first.fingerprint) + ",\"detail\":" + jstr(fin.detail) + ",\"plan_file\":" + jstr(path) +
     ",\"steps_before\":" + std::to_string(plan.steps.size()) + ",\"steps_after\":" + std::to_string(sr.plan.steps.size()) +
-    ",\"shrink_executions\":" + std::to_string(sr.executions) + ",\"crashed\":" + (crashed ? "true" : "false") + "}";
+    ",\"shrink_executions\":" + std::to_string(sr.executions) + ",\"crashed\":" + (crashed ? "true" : "false") + ",\"trace_stable\":" + (trace_stable ? "true" : "false") + "}";
 }
 
 // simple glob ('*' only) used for the known-findings list handed over by the orchestrator
